@@ -516,6 +516,12 @@ impl Runner {
                         visit(b.items());
                     }
                 }
+                "blind" => {
+                    let inner = &o.items()[1];
+                    if inner.tag() == "ingest" {
+                        visit(inner.items()[1].items());
+                    }
+                }
                 _ => {}
             }
         }
@@ -988,6 +994,10 @@ impl Runner {
 
     /// run one step of the history; Err = the history cannot continue (hang, panic, dead child)
     pub fn step(&mut self, op: &Sx) -> Result<(), ()> {
+        // (blind <op>): the operation is executed and enters the model's history, but the database
+        // is not read afterwards (no query loads a column), only brought to rest
+        let blind = op.tag() == "blind";
+        let op: &Sx = if blind { &op.items()[1] } else { op };
         let kind = op.tag().to_string();
         let mut batches: Vec<Sx> = vec![];
         match kind.as_str() {
@@ -1036,6 +1046,17 @@ impl Runner {
         let mut touches = vec![];
         for b in &batches {
             touches.push(self.note_batch(b.items()));
+        }
+        if blind {
+            self.req(lst(vec![a("quiesce")]), "quiesce")?;
+            let ev = self.events()?;
+            self.record_ops(&ev, &batches, &touches, kind == "flush");
+            match kind.as_str() {
+                "evict" => self.hops.push(lst(vec![a("evict")])),
+                "restart" => self.hops.push(lst(vec![a("restart")])),
+                _ => {}
+            }
+            return if self.violations.is_empty() { Ok(()) } else { Err(()) };
         }
         let (ev, d) = self.settle()?;
         self.record_ops(&ev, &batches, &touches, kind == "flush" || kind == "race");
@@ -1106,8 +1127,27 @@ pub fn model_cfg(opts: &[Sx], guard: bool) -> Sx {
 /// prefix) followed by one outcome per oracle violation.
 pub fn run_history(input: &Sx) -> Vec<Outcome> {
     let it = input.items();
-    let opts = field(it, "opts").unwrap_or(&[]).to_vec();
+    let mut opts = field(it, "opts").unwrap_or(&[]).to_vec();
     let ops = field(it, "ops").unwrap_or(&[]).to_vec();
+    // (max_wal_size first-segment): the limit is the size of the segment the first request writes,
+    // measured on a scratch database - the first request then fills the log exactly to the limit
+    if field(&opts, "max_wal_size").map(|v| v[0] == a("first-segment")).unwrap_or(false) {
+        let probe_opts: Vec<Sx> =
+            opts.iter().map(|o| if o.tag() == "max_wal_size" { lst(vec![a("max_wal_size"), Sx::int(64u64 << 20)]) } else { o.clone() }).collect();
+        let mut bytes: u64 = 64 << 20;
+        if let Some(first) = ops.first() {
+            let mut pr = Runner::new("hist-probe", &probe_opts, &ops);
+            if pr.open().is_ok() && pr.step(first).is_ok() {
+                if let Some(h) = pr.hops.iter().find(|h| h.tag() == "ingest") {
+                    bytes = h.items()[1].as_u64();
+                }
+            }
+            if let Some(p) = pr.proc_.as_mut() {
+                p.kill();
+            }
+        }
+        opts = opts.iter().map(|o| if o.tag() == "max_wal_size" { lst(vec![a("max_wal_size"), Sx::int(bytes)]) } else { o.clone() }).collect();
+    }
     let mut r = Runner::new("hist", &opts, &ops);
     let mut outs = vec![];
     let mut steps_done = 0;
